@@ -405,6 +405,7 @@ def observe(xform: str) -> dict:
                 "lang": t.get("lang"),
                 "default": t.get("default"),
                 "ids": [x.get("id") for x in t.findall("x:text", NS)],
+                "forms": [[v.get("form") for v in x.findall("x:value", NS)] for x in t.findall("x:text", NS)],
             })
     body_refs, bind_refs, item_ids = [], [], []
     for el in body.iter():
